@@ -1,11 +1,13 @@
 package main
 
 import (
+	"errors"
 	"bytes"
 	"encoding/binary"
 	"sort"
 
 	"github.com/ipfs/go-cid"
+	"github.com/ipld/go-car/v2/index"
 	mh "github.com/multiformats/go-multihash"
 	"github.com/multiformats/go-varint"
 )
@@ -566,6 +568,18 @@ func init() {
 				c.Count("records:bucket-above-1MiB")
 			}
 		}
+		// the constants the model hard-codes (incl. InsertionIndex.Codec), once per run
+		c.Emit("consts", VL{}, constsObs(), false)
+		// index.GetFirst on the three index kinds and InsertionIndex.Get (kind idxfirst)
+		for a := 0; a < 80*c.Scale; a++ {
+			r := c.R.Fork()
+			rs, f := genRecordSet(r, pick(r, []int{0, 1, 2, 3, 4, 6, 9, 14}))
+			qs := genQueries(r, rs)
+			for _, codec := range []uint64{0x0400, 0x0401, codecInsertion} {
+				c.Emit("idxfirst", VL{VN(codec), recsVal(rs), cidsVal(qs)}, runIdxFirstImpl(codec, rs, qs), len(rs) >= 2 && f.ties)
+				c.Count("get-first")
+			}
+		}
 		// Load called twice on one sorted index (kind idxload2, correspondence only)
 		for a := 0; a < 60*c.Scale; a++ {
 			r := c.R.Fork()
@@ -698,5 +712,66 @@ func init() {
 	registerReplay("idxload2", func(c *Ctx, in Val) Val {
 		l := in.(VL)
 		return runIdxLoad2Impl(uint64(l[0].(VN)), c11RecsOfVal(l[1]), c11RecsOfVal(l[2]), cidsOfVal(l[3]))
+	})
+}
+
+// c11FirstVal projects a "first offset" answer: not found / the offset when GetAll reports exactly one
+// (or the answer is specified exactly) / one of several / BAD when it is not among GetAll's offsets.
+func c11FirstVal(exact bool, all []uint64, off uint64, err error) Val {
+	if err != nil {
+		if errors.Is(err, index.ErrNotFound) {
+			return VL{VT("notfound")}
+		}
+		return VL{VT("BAD")}
+	}
+	found := false
+	for _, x := range all {
+		if x == off {
+			found = true
+		}
+	}
+	switch {
+	case !found:
+		return VL{VT("BAD")}
+	case exact || len(all) == 1:
+		return VL{VT("ok"), VN(off)}
+	default:
+		return VL{VT("among")}
+	}
+}
+
+func runIdxFirstImpl(codec uint64, rs []idxRec, qs []cid.Cid) (obs Val) {
+	defer func() {
+		if r := recover(); r != nil {
+			obs = VL{VT("PANIC")}
+		}
+	}()
+	out := VL{}
+	if codec == codecInsertion {
+		ii := c11InsertionIndex(rs)
+		for _, q := range qs {
+			all, _ := getAll(ii, q)
+			fo, ferr := index.GetFirst(ii, q)
+			go_, gerr := ii.Get(q)
+			out = append(out, VL{c11FirstVal(true, all, fo, ferr), c11FirstVal(false, all, go_, gerr)})
+		}
+		return out
+	}
+	idx, err := newIndex(codec, rs)
+	if err != nil {
+		return VL{VT("badcodec")}
+	}
+	for _, q := range qs {
+		all, _ := getAll(idx, q)
+		fo, ferr := index.GetFirst(idx, q)
+		out = append(out, VL{c11FirstVal(false, all, fo, ferr), VL{}})
+	}
+	return out
+}
+
+func init() {
+	registerReplay("idxfirst", func(c *Ctx, in Val) Val {
+		l := in.(VL)
+		return runIdxFirstImpl(uint64(l[0].(VN)), c11RecsOfVal(l[1]), cidsOfVal(l[2]))
 	})
 }
